@@ -30,6 +30,9 @@ type Relay struct {
 	mutex     stdsync.RWMutex
 	consumers []subscription
 
+	// cacheMutex serializes concurrent Puts that add to the cache: they only
+	// hold mutex as readers. All other cache accesses hold mutex as writer.
+	cacheMutex        stdsync.Mutex
 	cache             Cache
 	defaultMsgHandler func(*Envelope) // Handles messages with no subscriber.
 }
@@ -144,7 +147,11 @@ func (p *Relay) Put(e *Envelope) {
 	}
 
 	if !found {
-		if !p.cache.Put(e) {
+		p.cacheMutex.Lock()
+		cached := p.cache.Put(e)
+		p.cacheMutex.Unlock()
+
+		if !cached {
 			p.defaultMsgHandler(e)
 		}
 	}
